@@ -80,10 +80,132 @@ def _nets(E):
 
         def forward(s, x):
             return s.l(s.f(s.pool(s.m2(torch.relu(s.m1(x))))))
-    return TCN, CNN, QNet, QNet1d, SNet
+    class GNet(nn.Module):
+        """interpreter of a node list (see GSPECS); layer i is the sub-module `n<i>`"""
+        def __init__(s, nodes, out):
+            super().__init__()
+            s.nodes, s.out = nodes, out
+            ch = gnet_channels(nodes)
+            for i, nd in enumerate(nodes):
+                k = nd[0]
+                if k == 'conv':
+                    o = nd[4]
+                    setattr(s, 'n%d' % i, nn.Conv2d(ch[nd[1]], nd[2], nd[3], padding=nd[3] // 2, groups=o.get('groups', 1), stride=o.get('stride', 1)))
+                elif k == 'lin':
+                    setattr(s, 'n%d' % i, nn.Linear(ch[nd[1]], nd[2]))
+                elif k == 'bn':
+                    setattr(s, 'n%d' % i, nn.BatchNorm2d(ch[nd[1]]))
+                elif k == 'relu':
+                    setattr(s, 'n%d' % i, nn.ReLU())
+                elif k == 'pool':
+                    setattr(s, 'n%d' % i, nn.AdaptiveAvgPool2d(1))
+                elif k == 'flat':
+                    setattr(s, 'n%d' % i, nn.Flatten())
+
+        def forward(s, x):
+            v = []
+            for i, nd in enumerate(s.nodes):
+                k = nd[0]
+                if k == 'in':
+                    v.append(x)
+                elif k == 'add':
+                    v.append(v[nd[1]] + v[nd[2]])
+                elif k == 'cat':
+                    v.append(torch.cat([v[j] for j in nd[1]], dim=1))
+                else:
+                    v.append(getattr(s, 'n%d' % i)(v[nd[1]]))
+            return v[s.out]
+    return TCN, CNN, QNet, QNet1d, SNet, GNet
 
 
-PROTOS_QUICK = ['pit-tcn', 'pit-cnn', 'mps-chan-gumbel', 'mps-layer-soft', 'sn-mixed']
+# ----------------------------------------------------------------------------- networks given as dataflow
+# A network is a list of nodes (index = position):  ('in', C) | ('conv', src, cout, k, {groups, stride}) | ('bn', src) |
+# ('relu', src) | ('pool', src) | ('flat', src) | ('lin', src, cout) | ('add', a, b) | ('cat', [srcs]);  `out` = returned node.
+# The torch module is an interpreter of this list (fx-traceable); `io_tied_layers` derives from the SAME list, with
+# no reference to what the library builds, which layers' output features are tied to a network input / output.
+GSPECS = {
+    # out = cat(cat(a, b), c): the output features are those of a, b and c (transitively through two concats)
+    'pit-cat2-out': dict(nodes=[('in', 3), ('conv', 0, 4, 3, {}), ('relu', 1),
+                                ('conv', 2, 2, 3, {}), ('conv', 2, 3, 3, {}), ('cat', [3, 4]),
+                                ('conv', 2, 2, 1, {}), ('cat', [5, 6])], out=7, excluded=[]),
+    # out = cat(cat(a + b, c), d)
+    'pit-cat2-add-out': dict(nodes=[('in', 3), ('conv', 0, 4, 3, {}), ('relu', 1),
+                                    ('conv', 2, 2, 3, {}), ('conv', 2, 2, 1, {}), ('add', 3, 4), ('conv', 2, 3, 3, {}),
+                                    ('cat', [5, 6]), ('bn', 7), ('conv', 2, 2, 3, {}), ('cat', [8, 9])], out=10, excluded=[]),
+    # out = relu(cat(a, b) + c): a concat feeding an add that reaches the output
+    'pit-cat-add-out': dict(nodes=[('in', 3), ('conv', 0, 4, 3, {}), ('relu', 1),
+                                   ('conv', 2, 2, 3, {}), ('conv', 2, 3, 1, {}), ('cat', [3, 4]), ('conv', 2, 5, 3, {}),
+                                   ('add', 5, 6), ('relu', 7)], out=8, excluded=[]),
+    # v = cat(a(x), b(x)) + x: input-side tie through a concat; the head ends in a linear layer (output tie)
+    'pit-cat-in-tie': dict(nodes=[('in', 4), ('conv', 0, 2, 3, {}), ('conv', 0, 2, 1, {}), ('cat', [1, 2]), ('add', 3, 0),
+                                  ('conv', 4, 5, 3, {}), ('relu', 5), ('conv', 6, 5, 3, {'groups': 5}), ('pool', 7), ('flat', 8), ('lin', 9, 3)],
+                           out=10, excluded=[]),
+    # a layer excluded from the search: the features of its producer and of what is added to its output are fixed
+    'pit-excluded': dict(nodes=[('in', 3), ('conv', 0, 4, 3, {}), ('relu', 1), ('conv', 2, 4, 3, {}), ('conv', 2, 4, 1, {}), ('add', 3, 4),
+                                ('conv', 5, 6, 3, {}), ('relu', 6), ('pool', 7), ('flat', 8), ('lin', 9, 3)], out=10, excluded=[3]),
+}
+
+
+def gnet_channels(nodes):
+    ch = []
+    for nd in nodes:
+        k = nd[0]
+        if k == 'in':
+            ch.append(nd[1])
+        elif k in ('conv', 'lin'):
+            ch.append(nd[2])
+        elif k == 'add':
+            ch.append(ch[nd[1]])
+        elif k == 'cat':
+            ch.append(sum(ch[i] for i in nd[1]))
+        else:
+            ch.append(ch[nd[1]])
+    return ch
+
+
+def io_tied_layers(spec):
+    """indices of the conv / linear nodes whose output features are tied to a network input or output (or to a layer
+    excluded from the search): feature identity classes through unary ops, adds and depthwise convolutions; a concat
+    whose features are tied ties the features of each operand (transitively)."""
+    nodes, out, excluded = spec['nodes'], spec['out'], set(spec['excluded'])
+    ch = gnet_channels(nodes)
+    parent = list(range(len(nodes)))
+
+    def find(i):
+        while parent[i] != i:
+            parent[i] = parent[parent[i]]
+            i = parent[i]
+        return i
+
+    def union(a, b):
+        parent[find(a)] = find(b)
+
+    def depthwise(i):
+        nd = nodes[i]
+        return nd[0] == 'conv' and nd[4].get('groups', 1) == ch[nd[1]] == nd[2] and nd[2] > 1
+    for i, nd in enumerate(nodes):
+        k = nd[0]
+        if k in ('bn', 'relu', 'pool', 'flat'):
+            union(i, nd[1])
+        elif k == 'add':
+            union(i, nd[1]); union(i, nd[2])
+        elif k == 'conv' and depthwise(i):
+            union(i, nd[1])
+    tied = {find(i) for i, nd in enumerate(nodes) if nd[0] == 'in'} | {find(out)}
+    for e in excluded:
+        tied |= {find(e), find(nodes[e][1])}
+    changed = True
+    while changed:
+        changed = False
+        for i, nd in enumerate(nodes):
+            if nd[0] == 'cat' and find(i) in tied:
+                for p in nd[1]:
+                    if find(p) not in tied:
+                        tied.add(find(p)); changed = True
+    return [i for i, nd in enumerate(nodes) if nd[0] in ('conv', 'lin') and i not in excluded and find(i) in tied]
+
+
+PROTOS_QUICK = ['pit-tcn', 'pit-cnn', 'mps-chan-gumbel', 'mps-layer-soft', 'sn-mixed'] + sorted(GSPECS)
 PROTOS_THOROUGH = PROTOS_QUICK + ['pit-tcn-off', 'pit-cnn-foldbn', 'mps-1d-hard', 'mps-chan-noshare', 'sn-gumbel-hard']
 
 
@@ -91,10 +213,14 @@ def build(name, E=None, seed=0):
     """-> (method, model (training mode), input batch); weights and the input batch are drawn from `seed`"""
     E = E or env()
     torch = E['torch']
-    TCN, CNN, QNet, QNet1d, SNet = _nets(E)
+    TCN, CNN, QNet, QNet1d, SNet, GNet = _nets(E)
     torch.manual_seed(11 + 1000 * int(seed))
     cost = {'p': E['params'], 'o': E['ops']}
-    if name.startswith('pit-tcn'):
+    if name in GSPECS:
+        sp = GSPECS[name]
+        m = E['PIT'](GNet(sp['nodes'], sp['out']), input_shape=(sp['nodes'][0][1], 8, 8), cost=cost, exclude_names=['n%d' % i for i in sp['excluded']])
+        x = torch.randn(2, sp['nodes'][0][1], 8, 8)
+    elif name.startswith('pit-tcn'):
         kw = dict(train_features=False, train_dilation=False, discrete_cost=True) if name.endswith('off') else {}
         m = E['PIT'](TCN(), input_shape=(3, 16), cost=cost, **kw)
         x = torch.randn(2, 3, 16)
@@ -375,6 +501,25 @@ def describe(method, model, x):
     g = forward_backward(pm, x, S)
     S['reads'] = [bool(c) and S['frozen'][k] != 'PITFrozenFeaturesMasker' for k, c in enumerate(g)]
     return S
+
+
+# hand-derived ties of the hand-written prototypes (same rule as io_tied_layers, applied by reading `forward`)
+HAND_TIED = {'pit-tcn': ['cin', 'l2'], 'pit-tcn-off': ['cin', 'l2'], 'pit-cnn': ['l'], 'pit-cnn-foldbn': ['l']}
+
+
+def tied_masks(proto, model, S):
+    """-> [(layer name, index in S['names'] of its feature mask)] for the layers whose output features the network's own
+    dataflow ties to an input / output: derived from the node list (GSPECS) or given by hand, never from the masker classes"""
+    if proto in GSPECS:
+        layers = ['n%d' % i for i in io_tied_layers(GSPECS[proto])]
+    else:
+        layers = HAND_TIED.get(proto, [])
+    out = []
+    for ln in layers:
+        mk = model.get_submodule('seed.' + ln).out_features_masker
+        hit = [k for k, n in enumerate(S['names']) if get_tensor(model, n) is mk.alpha]
+        out.append((ln, hit[0] if hit else None))
+    return out
 
 
 def state_coq(S, a):
